@@ -276,6 +276,12 @@ func init() {
 			absent, err := stick.Contains(v, "\x00no-such-element\x00")
 			obs["contains_absent"] = absent
 			obs["contains_err"] = err != nil
+			// composite needles that are not among the elements either: another slice, another map
+			for _, needle := range []stick.Value{[]int{991, 992}, map[string]int{"absent": 1}, []stick.Value{"q"}} {
+				if in, err := stick.Contains(v, needle); in && err == nil {
+					obs["contains_absent"] = true
+				}
+			}
 		}); p != "" {
 			obs["contains_panic"] = p
 		}
